@@ -1,7 +1,7 @@
 //! C01 correspondence: "collections have value semantics: mutation never leaks through an alias".
 //!
 //! PART A (three-way): random statement histories in exactly the vocabulary of the Lean driver
-//! (`as si ap po rm co sw up ca` over nested, deliberately aliased lists) are run statement by statement in
+//! (`as si ap po rm co sw up ca apo` over nested, deliberately aliased lists) are run statement by statement in
 //! the real interpreter; after every statement all variables are dumped and compared with the dumps
 //! of the reference-counted-heap Impl model and of the pure copy-on-assignment Spec (driver_c01).
 //!
@@ -779,6 +779,49 @@ fn st_op(vars: &mut [V], x: usize, path: &[Ix], op: Op, rhs: &V) -> Option<bool>
         Ok(c) => Some(set_index(&mut vars[x], path, Some(c), false).is_ok()),
     }
 }
+/// operator assignment whose right-hand side has side effects on the store.  Documented order:
+/// (1) index expressions, (2) read the OLD left-hand value, (3) evaluate the right-hand side,
+/// (4) null the slot, (5) apply the operator, (6) assign into the then-current value.
+/// `rhs` returns None when the reference semantics cannot tell, Some(Err) when it raises.
+fn st_op_with<S>(st: &mut S, vars_of: fn(&mut S) -> &mut Vec<V>, x: usize, path: &[Ix], op: Op, rhs: &mut dyn FnMut(&mut S) -> Option<R<V>>) -> Option<bool> {
+    st_op_ordered(st, vars_of, x, path, op, rhs, false)
+}
+/// `late_read = true` is the WRONG order (old value read after the right-hand side ran); it is only used
+/// to count how many generated cases can tell the two orders apart
+fn st_op_ordered<S>(
+    st: &mut S,
+    vars_of: fn(&mut S) -> &mut Vec<V>,
+    x: usize,
+    path: &[Ix],
+    op: Op,
+    rhs: &mut dyn FnMut(&mut S) -> Option<R<V>>,
+    late_read: bool,
+) -> Option<bool> {
+    let mut lhs = V::Null;
+    if !late_read {
+        lhs = match get_path(&vars_of(st)[x], path) {
+            Ok(l) => l,
+            Err(_) => return Some(false),
+        };
+    }
+    let r = match rhs(st)? {
+        Ok(v) => v,
+        Err(()) => return Some(false),
+    };
+    if late_read {
+        lhs = match get_path(&vars_of(st)[x], path) {
+            Ok(l) => l,
+            Err(_) => return Some(false),
+        };
+    }
+    if set_index(&mut vars_of(st)[x], path, None, true).is_err() {
+        return Some(false);
+    }
+    match binop(op, lhs, &r)? {
+        Err(_) => Some(false),
+        Ok(c) => Some(set_index(&mut vars_of(st)[x], path, Some(c), false).is_ok()),
+    }
+}
 fn st_every_op(vars: &mut [V], x: usize, path: &[Ix], op: Op, rhs: &V) -> Option<bool> {
     let mut old = vars[x].clone();
     let mut unknown = false;
@@ -1046,6 +1089,9 @@ struct Local {
     histories: u64,
     shared_cases: u64,
     raised_cases: u64,
+    /// op-assignments with a mutating right-hand side whose outcome depends on reading the old value first
+    order_sensitive: u64,
+    rhsmut_cases: u64,
 }
 impl Local {
     fn arm(&mut self, a: &str) {
@@ -1135,6 +1181,8 @@ enum AStmt {
     Up(usize, usize, i64, Atom),
     /// `y = x append atom`
     Ca(usize, usize, Atom),
+    /// `x[p] append= pop y[q]`
+    Apo(usize, Vec<i64>, usize, Vec<i64>),
 }
 fn ipath(p: &[i64]) -> Vec<Ix> {
     p.iter().map(|i| Ix::I(*i)).collect()
@@ -1206,6 +1254,7 @@ impl AStmt {
             AStmt::Sw(..) => "sw",
             AStmt::Up(..) => "up",
             AStmt::Ca(..) => "ca",
+            AStmt::Apo(..) => "apo",
         }
     }
     fn tok(&self) -> String {
@@ -1219,6 +1268,7 @@ impl AStmt {
             AStmt::Sw(x, px, y, py) => format!("sw:{}:{}:{}:{}", x, ptok(px), y, ptok(py)),
             AStmt::Up(y, x, i, a) => format!("up:{}:{}:{}:{}", y, x, i, a.tok()),
             AStmt::Ca(y, x, a) => format!("ca:{}:{}:{}", y, x, a.tok()),
+            AStmt::Apo(x, p, y, q) => format!("apo:{}:{}:{}:{}", x, ptok(p), y, ptok(q)),
         }
     }
     fn src(&self) -> String {
@@ -1232,6 +1282,7 @@ impl AStmt {
             AStmt::Sw(x, px, y, py) => format!("swap {}{}, {}{}", VARS[*x], psrc(px), VARS[*y], psrc(py)),
             AStmt::Up(y, x, i, a) => format!("{} = {}{{{} = {}}}", VARS[*y], VARS[*x], int_src(*i), a.src()),
             AStmt::Ca(y, x, a) => format!("{} = {} append {}", VARS[*y], VARS[*x], a.src()),
+            AStmt::Apo(x, p, y, q) => format!("{}{} append= pop {}{}", VARS[*x], psrc(p), VARS[*y], psrc(q)),
         }
     }
     /// the paths whose containers the statement mutates: (variable, path to walk when looking for a
@@ -1249,6 +1300,7 @@ impl AStmt {
             // non-mutating forms: is the payload handed to the update / the builtin held by anybody
             // besides the variable itself
             AStmt::Up(_, x, _, _) | AStmt::Ca(_, x, _) => vec![(*x, vec![])],
+            AStmt::Apo(x, p, y, q) => vec![(*x, p.clone()), (*y, q.clone())],
             AStmt::Si(x, p, _) => vec![(*x, parent(p))],
             AStmt::Ap(x, p, _) | AStmt::Po(_, x, p) | AStmt::Rm(_, x, p, _) => vec![(*x, p.clone())],
             AStmt::Co(_, x, p) => {
@@ -1274,6 +1326,7 @@ impl AStmt {
         match self {
             AStmt::As(..) | AStmt::Ca(..) => 0,
             AStmt::Up(..) => 1,
+            AStmt::Apo(_, p, _, q) => p.len().max(q.len()),
             AStmt::Si(_, p, _) | AStmt::Ap(_, p, _) | AStmt::Po(_, _, p) | AStmt::Co(_, _, p) => p.len(),
             AStmt::Rm(_, _, p, _) => p.len() + 1,
             AStmt::Sw(_, px, _, py) => px.len().max(py.len()),
@@ -1315,6 +1368,12 @@ fn a_apply(vars: &mut Vec<V>, st: &AStmt) -> bool {
                 }
                 Err(()) => false,
             }
+        }
+        AStmt::Apo(x, p, y, q) => {
+            let qq = ipath(q);
+            let y = *y;
+            st_op_with(vars, |v| v, *x, &ipath(p), Op::Append, &mut |vars: &mut Vec<V>| Some(modify(&mut vars[y], &qq, &mut pop_leaf)))
+                .unwrap_or(false)
         }
         AStmt::Ca(y, x, a) => match binop(Op::Append, vars[*x].clone(), &a.val(vars)) {
             Some(Ok(v)) => {
@@ -1377,7 +1436,8 @@ fn a_gen(rng: &mut Rng, vars: &[V], build: bool, ill: bool, hot: Option<usize>) 
         *rng.pick(&["as", "as", "as", "as", "si", "si", "ap", "ap", "ap", "sw"])
     } else {
         *rng.pick(&[
-            "as", "as", "si", "si", "si", "si", "ap", "ap", "ap", "po", "po", "rm", "rm", "co", "co", "sw", "sw", "up", "up", "ca", "ca",
+            "as", "as", "si", "si", "si", "si", "ap", "ap", "ap", "po", "po", "rm", "rm", "co", "co", "sw", "sw", "up", "up", "ca", "ca", "apo", "apo",
+            "apo",
         ])
     };
     let x = a_var(rng, vars, form != "as", hot);
@@ -1446,6 +1506,43 @@ fn a_gen(rng: &mut Rng, vars: &[V], build: bool, ill: bool, hot: Option<usize>) 
                 }
             };
             AStmt::Up(y, x, i, atom)
+        }
+        "apo" => {
+            // the popped list is mostly the same variable, related to the appended-to slot: the same list,
+            // an ancestor (the slot may stop being addressable) or a descendant
+            let same = rng.chance(13, 20);
+            let y2 = if same { x } else { a_var(rng, vars, true, hot) };
+            let poss_y = if y2 == x { poss.clone() } else { positions(&vars[y2], rng) };
+            let ppos = if ill && rng.chance(1, 2) {
+                pick_pos(rng, &poss, &|p| !is_list(p))
+            } else {
+                pick_pos(rng, &poss, &|p| is_list(p) && p.len < MAX_LEN)
+            };
+            let mut p = ppos.map(|p| p.path.clone()).unwrap_or_default();
+            let pop_ok = |c: &Pos| is_list(c) && c.len > 0;
+            let is_prefix = |a: &[Ix], b: &[Ix]| a.len() <= b.len() && ints_of(a) == ints_of(&b[..a.len()]);
+            let rel = rng.below(10);
+            let qpos = if ill && rng.chance(1, 2) {
+                pick_pos(rng, &poss_y, &|c| !pop_ok(c))
+            } else if y2 == x && rel < 3 {
+                pick_pos(rng, &poss_y, &|c| pop_ok(c) && ints_of(&c.path) == ints_of(&p))
+            } else if y2 == x && rel < 6 {
+                pick_pos(rng, &poss_y, &|c| pop_ok(c) && c.path.len() < p.len() && is_prefix(&c.path, &p))
+            } else if y2 == x && rel < 8 {
+                pick_pos(rng, &poss_y, &|c| pop_ok(c) && c.path.len() > p.len() && is_prefix(&p, &c.path))
+            } else {
+                None
+            };
+            let qpos = qpos.or_else(|| pick_pos(rng, &poss_y, &|c| pop_ok(c)));
+            let mut q = qpos.map(|c| c.path.clone()).unwrap_or_default();
+            if ill && rng.chance(1, 4) {
+                if rng.chance(1, 2) {
+                    corrupt(rng, &vars[x], &mut p, true);
+                } else {
+                    corrupt(rng, &vars[y2], &mut q, true);
+                }
+            }
+            AStmt::Apo(x, ints_of(&p), y2, ints_of(&q))
         }
         "si" => {
             let mut path = match pick_pos(rng, &poss, &|p| !p.path.is_empty()) {
@@ -1608,6 +1705,17 @@ fn run_a_shard(mut rng: Rng, n_hist: usize, max_len: usize, driver: &str) -> Loc
                 let ok = a_apply(&mut trial, &st);
                 (st, trial, ok)
             });
+            if let AStmt::Apo(x, p, y, q) = &st {
+                let mut alt = vars.clone();
+                let qq = ipath(q);
+                let y = *y;
+                let alt_ok = st_op_ordered(&mut alt, |v| v, *x, &ipath(p), Op::Append, &mut |vs: &mut Vec<V>| Some(modify(&mut vs[y], &qq, &mut pop_leaf)), true)
+                    .unwrap_or(false);
+                loc.rhsmut_cases += 1;
+                if alt_ok != ok || alt != trial {
+                    loc.order_sensitive += 1;
+                }
+            }
             let shared = st.mutated().iter().any(|(x, p)| probe_shared(&interp, VARS[*x], &ipath(p)));
             // a statement that copies a list out of a variable makes that variable (and the target) "hot"
             let rhs_var = |r: &ARhs| -> Option<usize> {
@@ -1707,10 +1815,65 @@ enum Clo {
     /// `(\c -> \ -> c)(value)`: captures the VALUE at creation time
     Snap(V),
 }
+/// `cgN := \ -> (qx <op>= val; ret)`: a closure that UPDATES the outer variable when called
+#[derive(Clone, Debug)]
+struct Upd {
+    x: usize,
+    op: Op,
+    val: V,
+    ret: V,
+}
+const UPDS: [&str; 2] = ["cg1", "cg2"];
+/// right-hand sides that mutate a variable while they are evaluated
+#[derive(Clone, Debug)]
+enum MutRhs {
+    /// `(qz = val; then)`
+    AssignThen { z: usize, val: V, then: V },
+    /// `pop qz[..]` / `consume qz[..]` / `remove qz[..][i]`
+    Extract { kind: Ext, z: usize, path: Vec<Ix> },
+    /// `(qz[path] = val; then)`
+    SetThen { z: usize, path: Vec<Ix>, val: V, then: V },
+    /// `(qz op= val; then)`
+    OpThen { z: usize, op: Op, val: V, then: V },
+    /// `cgN()`
+    Call { g: usize },
+}
+fn store_vars(s: &mut Store) -> &mut Vec<V> {
+    &mut s.vars
+}
+fn eval_mrhs(st: &mut Store, m: &MutRhs) -> Option<R<V>> {
+    match m {
+        MutRhs::AssignThen { z, val, then } => {
+            st.vars[*z] = val.clone();
+            Some(Ok(then.clone()))
+        }
+        MutRhs::Extract { kind, z, path } => Some(match kind {
+            Ext::Pop => modify(&mut st.vars[*z], path, &mut pop_leaf),
+            Ext::Consume => modify(&mut st.vars[*z], path, &mut take_leaf),
+            Ext::Remove => match path.split_last() {
+                None => Err(()),
+                Some((last, rest)) => modify(&mut st.vars[*z], rest, &mut |s| remove_leaf(s, last)),
+            },
+        }),
+        MutRhs::SetThen { z, path, val, then } => Some(set_index(&mut st.vars[*z], path, Some(val.clone()), false).map(|_| then.clone())),
+        MutRhs::OpThen { z, op, val, then } => match st_op(&mut st.vars, *z, &[], *op, val)? {
+            true => Some(Ok(then.clone())),
+            false => Some(Err(())),
+        },
+        MutRhs::Call { g } => {
+            let u = st.upds[*g].clone();
+            match st_op(&mut st.vars, u.x, &[], u.op, &u.val)? {
+                true => Some(Ok(u.ret)),
+                false => Some(Err(())),
+            }
+        }
+    }
+}
 #[derive(Clone, Debug)]
 struct Store {
     vars: Vec<V>,
     clos: Vec<Clo>,
+    upds: Vec<Upd>,
     /// generator hint (not part of the state): a variable whose value was copied a moment ago
     hot: Option<usize>,
 }
@@ -1905,6 +2068,9 @@ enum Eff {
     AssignVal { y: usize, val: R<V> },
     Adopt { y: usize },
     SetClo { c: usize, clo: Clo },
+    DeclUpd(Upd),
+    OpMut { x: usize, path: Vec<Ix>, op: Op, rhs: MutRhs },
+    SetMut { x: usize, path: Vec<Ix>, rhs: MutRhs },
 }
 /// apply to the reference store; `None` = the statement must not be generated (operator result unknown
 /// to the reference semantics, or a multi-slot statement that fails half-way, which is unspecified)
@@ -1953,6 +2119,222 @@ fn apply(eff: &Eff, st: &mut Store) -> Option<bool> {
             st.clos[*c] = clo.clone();
             Some(true)
         }
+        Eff::DeclUpd(u) => {
+            st.upds.push(u.clone());
+            Some(true)
+        }
+        Eff::OpMut { x, path, op, rhs } => st_op_with(st, store_vars, *x, path, *op, &mut |s: &mut Store| eval_mrhs(s, rhs)),
+        Eff::SetMut { x, path, rhs } => match eval_mrhs(st, rhs)? {
+            // index expressions, then the right-hand side, then the assignment into the then-current value
+            Err(()) => Some(false),
+            Ok(v) => Some(set_index(&mut st.vars[*x], path, Some(v), false).is_ok()),
+        },
+    }
+}
+
+/// a literal without variable references (it is evaluated AFTER the nested mutation in the real interpreter)
+fn pure_lit(rng: &mut Rng, want: u64) -> E {
+    match want {
+        0 => lit(V::Int(rng.range(-5, 20))),
+        1 => {
+            let n = rng.below(3);
+            let xs: Vec<i64> = (0..n).map(|_| rng.range(0, 9)).collect();
+            E {
+                src: format!("[{}]", xs.iter().map(|x| x.to_string()).collect::<Vec<_>>().join(", ")),
+                val: V::List(xs.into_iter().map(V::Int).collect()),
+                alias: false,
+            }
+        }
+        2 => {
+            let k = gen_key(rng);
+            E { src: k.key_src(), val: ix_key(&k).unwrap().1, alias: false }
+        }
+        3 => {
+            let mut m = BTreeMap::new();
+            let mut parts = vec![];
+            for _ in 0..rng.below(3) {
+                let k = gen_key(rng);
+                let (kt, kv) = ix_key(&k).unwrap();
+                if m.contains_key(&kt) {
+                    continue;
+                }
+                let v = rng.range(0, 9);
+                parts.push(format!("{}: {}", k.key_src(), v));
+                m.insert(kt, (kv, V::Int(v)));
+            }
+            E { src: format!("{{{}}}", parts.join(", ")), val: V::Dict(m, None), alias: false }
+        }
+        _ => {
+            let w = rng.below(3);
+            pure_lit(rng, w)
+        }
+    }
+}
+/// an updater closure for variable x, shaped after the kind of value x holds now
+fn gen_upd(rng: &mut Rng, st: &Store, x: usize) -> (Upd, String) {
+    let (op, val, ret) = match &st.vars[x] {
+        V::Int(_) => (Op::Plus, pure_lit(rng, 0), pure_lit(rng, 0)),
+        V::List(_) if rng.chance(1, 2) => (Op::Concat, pure_lit(rng, 1), pure_lit(rng, 1)),
+        V::Dict(..) => (Op::AddKey, pure_lit(rng, 2), pure_lit(rng, 2)),
+        _ => (Op::Append, pure_lit(rng, 0), pure_lit(rng, 9)),
+    };
+    let body = format!("\\ -> ({} {}= {}; {})", VARS[x], op.sym(), val.src, ret.src);
+    (Upd { x, op, val: val.val, ret: ret.val }, body)
+}
+/// operator / index assignment whose right-hand side mutates the same variable (or another one)
+fn gen_rhsmut(rng: &mut Rng, st: &Store, ill: bool) -> Option<BGen> {
+    let nv = st.vars.len();
+    let is_set = rng.chance(3, 10);
+    let op = *rng.pick(&[Op::Plus, Op::Plus, Op::Append, Op::Append, Op::Append, Op::Concat, Op::Concat, Op::AddKey, Op::Union]);
+    let wants = |k: Kind| -> bool {
+        match op {
+            Op::Plus => k == Kind::Int,
+            Op::Append | Op::Concat => k == Kind::List,
+            _ => matches!(k, Kind::Dict | Kind::DictD),
+        }
+    };
+    let x = pick_var(rng, st, &|v| contains_kind(v, &|u| wants(u.kind())));
+    let poss = positions(&st.vars[x], rng);
+    let tpos = if is_set {
+        pick_pos(rng, &poss, &|p| !p.virt && (1..=2).contains(&p.path.len()))?
+    } else if ill && rng.chance(1, 3) {
+        pick_pos(rng, &poss, &|p| !p.virt && p.path.len() <= 2)?
+    } else {
+        pick_pos(rng, &poss, &|p| !p.virt && p.path.len() <= 2 && wants(p.kind))?
+    };
+    let mut path = tpos.path.clone();
+    let z = if rng.chance(7, 10) || nv < 2 { x } else { pick_var(rng, st, &|v| v.is_container()) };
+    let zposs = if z == x { poss.clone() } else { positions(&st.vars[z], rng) };
+    // the literal the right-hand side evaluates to (when it is not the extracted value)
+    let then = if is_set {
+        pure_lit(rng, 9)
+    } else {
+        match op {
+            Op::Plus => pure_lit(rng, 0),
+            Op::Append => pure_lit(rng, 9),
+            Op::Concat => pure_lit(rng, 1),
+            Op::AddKey => pure_lit(rng, 2),
+            _ => pure_lit(rng, 3),
+        }
+    };
+    // nested positions related to the target slot: the slot itself, an ancestor, a descendant, or anything
+    let related = |rng: &mut Rng, pred: &dyn Fn(&Pos) -> bool| -> Option<Pos> {
+        let pre = |a: &[Ix], b: &[Ix]| a.len() <= b.len() && a == &b[..a.len()];
+        let r = rng.below(4);
+        let c = if z == x && r < 3 {
+            pick_pos(rng, &zposs, &|c| pred(c) && !c.virt && (pre(&c.path, &path) || pre(&path, &c.path)))
+        } else {
+            None
+        };
+        c.or_else(|| pick_pos(rng, &zposs, &|c| pred(c) && !c.virt)).cloned()
+    };
+    let shape = rng.below(10);
+    let (rhs, rsrc, npath): (MutRhs, String, Vec<Ix>) = match shape {
+        0 | 1 => {
+            let val = pure_lit(rng, 9);
+            (MutRhs::AssignThen { z, val: val.val, then: then.val.clone() }, format!("({} = {}; {})", VARS[z], val.src, then.src), vec![])
+        }
+        2 | 3 => {
+            let c = related(rng, &|c| c.kind == Kind::List && (ill || c.len > 0))?;
+            let mut np = c.path.clone();
+            if ill && rng.chance(1, 2) {
+                corrupt(rng, &st.vars[z], &mut np, false);
+            }
+            (MutRhs::Extract { kind: Ext::Pop, z, path: np.clone() }, format!("pop {}{}", VARS[z], path_src(&np)), np)
+        }
+        4 => {
+            let c = related(rng, &|_| true)?;
+            let np = c.path.clone();
+            (MutRhs::Extract { kind: Ext::Consume, z, path: np.clone() }, format!("consume {}{}", VARS[z], path_src(&np)), np)
+        }
+        5 => {
+            let c = related(rng, &|c| matches!(c.kind, Kind::List | Kind::Dict | Kind::DictD) && c.len > 0)?;
+            let cont = get_path(&st.vars[z], &c.path).ok()?;
+            let mut np = c.path.clone();
+            match &cont {
+                V::List(xs) => {
+                    let l = xs.len() as i64;
+                    let j = rng.below(l as u64) as i64;
+                    np.push(Ix::I(if ill { l + 1 } else if rng.chance(1, 3) { j - l } else { j }));
+                }
+                V::Dict(m, _) => {
+                    let ks: Vec<&V> = m.values().map(|(k, _)| k).collect();
+                    np.push(key_ix(ks[rng.below(ks.len() as u64) as usize])?);
+                }
+                _ => return None,
+            }
+            (MutRhs::Extract { kind: Ext::Remove, z, path: np.clone() }, format!("remove {}{}", VARS[z], path_src(&np)), parent_of(&np))
+        }
+        6 => {
+            let c = related(rng, &|c| !c.path.is_empty())?;
+            let mut np = c.path.clone();
+            if ill && rng.chance(1, 2) {
+                corrupt(rng, &st.vars[z], &mut np, false);
+            }
+            let val = pure_lit(rng, 9);
+            (
+                MutRhs::SetThen { z, path: np.clone(), val: val.val, then: then.val.clone() },
+                format!("({}{} = {}; {})", VARS[z], path_src(&np), val.src, then.src),
+                parent_of(&np),
+            )
+        }
+        7 => {
+            let (nop, val) = match &st.vars[z] {
+                V::Int(_) => (Op::Plus, pure_lit(rng, 0)),
+                V::Dict(..) => (Op::AddKey, pure_lit(rng, 2)),
+                V::List(_) if rng.chance(1, 3) => (Op::Concat, pure_lit(rng, 1)),
+                _ => (Op::Append, pure_lit(rng, 9)),
+            };
+            (
+                MutRhs::OpThen { z, op: nop, val: val.val, then: then.val.clone() },
+                format!("({} {}= {}; {})", VARS[z], nop.sym(), val.src, then.src),
+                vec![],
+            )
+        }
+        _ => {
+            if st.upds.is_empty() {
+                return None;
+            }
+            // prefer an updater of the same variable
+            let mut g = rng.below(st.upds.len() as u64) as usize;
+            for (i, u) in st.upds.iter().enumerate() {
+                if u.x == x && rng.chance(2, 3) {
+                    g = i;
+                }
+            }
+            (MutRhs::Call { g }, format!("{}()", UPDS[g]), vec![])
+        }
+    };
+    if ill && rng.chance(1, 3) {
+        corrupt(rng, &st.vars[x], &mut path, false);
+    }
+    let lhs_kind = get_path(&st.vars[x], &path).map(|v| v.kind()).unwrap_or(Kind::Null);
+    let nested_z = match &rhs {
+        MutRhs::Call { g } => st.upds[*g].x,
+        _ => z,
+    };
+    let mut probe = vec![(x, if is_set { parent_of(&path) } else { path.clone() })];
+    probe.push((nested_z, npath));
+    if is_set {
+        Some(BGen {
+            src: format!("{}{} = {}", VARS[x], path_src(&path), rsrc),
+            key: "ref:set-rhsmut",
+            form: format!("set-rhsmut({})", if nested_z == x { "same" } else { "other" }),
+            kind: tpos.pkind,
+            probe,
+            copies_container: false,
+            eff: Eff::SetMut { x, path, rhs },
+        })
+    } else {
+        Some(BGen {
+            src: format!("{}{} {}= {}", VARS[x], path_src(&path), op.sym(), rsrc),
+            key: "ref:opassign-rhsmut",
+            form: format!("opassign-rhsmut({},{})", op.sym(), if nested_z == x { "same" } else { "other" }),
+            kind: lhs_kind,
+            probe,
+            copies_container: false,
+            eff: Eff::OpMut { x, path, op, rhs },
+        })
     }
 }
 
@@ -2064,6 +2446,9 @@ fn gen_b(rng: &mut Rng, st: &Store, ill: bool) -> Option<BGen> {
     // keep the store populated with containers: there is nothing to alias or mutate in ints
     let ncont = st.vars.iter().filter(|v| v.is_container()).count();
     let form = if ncont == 0 || (ncont * 2 <= nv && rng.chance(1, 3)) { "assign" } else { form };
+    if form != "assign" && rng.chance(1, 5) {
+        return gen_rhsmut(rng, st, ill);
+    }
     match form {
         "assign" => {
             let mut e = gen_expr(rng, st, 3);
@@ -2649,7 +3034,7 @@ fn run_b_shard(mut rng: Rng, n_hist: usize, max_len: usize) -> Local {
         interp.eval(STRUCT_DECL);
         let mut srcs = vec![STRUCT_DECL.to_string()];
         let mut hash = fnv(0xcbf29ce484222325, STRUCT_DECL);
-        let mut store = Store { vars: vec![], clos: vec![], hot: None };
+        let mut store = Store { vars: vec![], clos: vec![], upds: vec![], hot: None };
         let mut alive = true;
         // declarations (aliased on purpose: later declarations mention earlier variables)
         for i in 0..nvars {
@@ -2708,6 +3093,27 @@ fn run_b_shard(mut rng: Rng, n_hist: usize, max_len: usize) -> Local {
                 alive = false;
             }
         }
+        for g in 0..rng.range(1, 2) as usize {
+            if !alive {
+                break;
+            }
+            let x = pick_var(&mut rng, &store, &|v| matches!(v, V::Int(_) | V::List(_) | V::Dict(..)));
+            let (u, body) = gen_upd(&mut rng, &store, x);
+            let gen = BGen {
+                src: format!("{} := {}", UPDS[g], body),
+                key: "ref:closure",
+                form: "closure-upd".into(),
+                kind: store.vars[x].kind(),
+                probe: vec![],
+                copies_container: false,
+                eff: Eff::DeclUpd(u),
+            };
+            let mut ns = store.clone();
+            apply(&gen.eff, &mut ns);
+            if !b_step(&mut loc, &interp, &mut store, &mut srcs, &mut hash, gen, ns, true) {
+                alive = false;
+            }
+        }
         let mut i = 0;
         while alive && i < len {
             i += 1;
@@ -2725,6 +3131,14 @@ fn run_b_shard(mut rng: Rng, n_hist: usize, max_len: usize) -> Local {
                 }
             }
             let Some((g, ns, ok)) = chosen else { continue };
+            if let Eff::OpMut { x, path, op, rhs } = &g.eff {
+                let mut alt = store.clone();
+                let alt_ok = st_op_ordered(&mut alt, store_vars, *x, path, *op, &mut |s: &mut Store| eval_mrhs(s, rhs), true);
+                loc.rhsmut_cases += 1;
+                if alt_ok != Some(ok) || alt.vars != ns.vars {
+                    loc.order_sensitive += 1;
+                }
+            }
             if !b_step(&mut loc, &interp, &mut store, &mut srcs, &mut hash, g, ns, ok) {
                 alive = false;
             }
@@ -2867,14 +3281,15 @@ fn main() {
     let mut rep = Report::new("C01", &args);
     rep.rule = "PART A: random histories (quick 400 x <=25, thorough 20000 x <=60 statements) over 2..5 variables in the \
                 vocabulary of the Lean model (x = rhs, x[path] = rhs, x[path] append= rhs, y = pop x[path], y = remove x[path][i], \
-                y = consume x[path], swap x[px], y[py], y = x{i = atom}, y = x append atom; rhs = atom | [atoms] | [atom] ** n); the first third of a history builds \
+                y = consume x[path], swap x[px], y[py], y = x{i = atom}, y = x append atom, x[p] append= pop y[q]; rhs = atom | [atoms] | [atom] ** n); the first third of a history builds \
                 nested lists that share payloads (qb = [qa, qa], [qa] ** 3, qa[1] = qb, qa append= qa), the rest mutates one \
                 holder through every form at depth 0..4 with paths that are valid in a shadow store, ~15 % deliberately \
                 ill-formed (index out of range, indexing an int/null, pop of empty/non-list, append to non-list, remove out of \
                 range); after EVERY statement all variables are dumped and compared with the Impl (Rc heap) and Spec (pure \
                 store) dumps. PART B (reference-only): the same scheme over dicts with/without default, strings, vectors, \
                 bytes, struct instances, op-assignments (+ append ++ |. -. || $ .reverse .sort), every / every-op, \
-                remove of index/key/slice, x{k = v}, closures capturing a variable or a value, and function calls, against a \
+                remove of index/key/slice, x{k = v}, closures capturing a variable or a value, function calls, and op-/index-assignments \
+                whose right-hand side mutates the same or another variable (nested assignment, pop/consume/remove, updater closure), against a \
                 pure tree store in c01.rs. A case (= one statement of one history) is non-trivial when, in the real \
                 interpreter at the time of the statement, a payload on the mutated index path has strong count > 1 (it is \
                 shared with another holder), or the statement raises, or (non-mutating forms: assign, update, closure, call) \
@@ -2923,6 +3338,7 @@ fn main() {
     results.push((nwork, fixed));
 
     let (mut a_cases, mut ref_cases, mut adopted, mut selfcheck, mut shared, mut raised, mut hist) = (0u64, 0u64, 0u64, 0u64, 0u64, 0u64, 0u64);
+    let (mut order_sensitive, mut rhsmut_cases) = (0u64, 0u64);
     let mut samples = vec![];
     for (_, loc) in results {
         for (h, nt) in &loc.cases {
@@ -2956,6 +3372,8 @@ fn main() {
         shared += loc.shared_cases;
         raised += loc.raised_cases;
         hist += loc.histories;
+        order_sensitive += loc.order_sensitive;
+        rhsmut_cases += loc.rhsmut_cases;
     }
     samples.truncate(12);
     rep.samples = samples;
@@ -2964,6 +3382,10 @@ fn main() {
     rep.notes.push(format!("reference-only calls whose result was adopted from the real interpreter: {}", adopted));
     rep.notes.push(format!("histories: {}; statements on a shared payload: {}; statements that raised: {}", hist, shared, raised));
     rep.notes.push(format!("part-A statements where the c01.rs reference store differs from the Lean Spec (self-check, must be 0): {}", selfcheck));
+    rep.notes.push(format!(
+        "op-assignments whose right-hand side mutates a variable (apo + ref:opassign-rhsmut): {}; of these {} give a different result when the old left-hand value is read AFTER the right-hand side (order-sensitive)",
+        rhsmut_cases, order_sensitive
+    ));
     rep.notes.push(format!("threads: {}", threads));
     rep.notes.push("arm histogram: every case is counted twice, once under its statement form (`si:shared`, `ref:opassign(append):fail`) and once under depth (part A, `depth:d2:shared`) or the kind of the mutated container / copied value (part B, `kind:ddict:shared`)".to_string());
     rep.write(&args.out);
